@@ -82,9 +82,10 @@ struct SaTwin {
 
 string do_sandnet(const vector<string> &a) {
   if (a.size() < 3) return "bad-args";
-  SaTwin t[2];
+  SaTwin t[3];
   t[0].setup(a[1]);
   t[1].setup(a[1]);
+  t[2].setup(a[1]);
   c06::Trace tr;
   for (size_t k = 2; k < a.size(); k++) {
     string s = a[k];
@@ -95,7 +96,9 @@ string do_sandnet(const vector<string> &a) {
     vector<uint8_t> d = vh::unhex(s);
     string o0 = t[0].deliver(c06::POISON[0], d, self, control);
     string o1 = t[1].deliver(c06::POISON[1], d, self, control);
-    tr.add(o0, o1);
+    string o2;
+    { c06::PrevMode pm; o2 = t[2].deliver(c06::POISON[2], d, self, control); }
+    tr.add3(o0, o1, o2);
   }
   return tr.result();
 }
